@@ -24,6 +24,8 @@ NOTES = {
     "C31-m2": "not kept: after the repair 'set permissions before recording the hash' the change no longer breaks the property (demonstration passes)",
     "C22-m2": "trees with a directory named BUILD inside a directory without a BUILD file (this also exposed the same defect in the completion walker, fixed in 0747d69)",
     "C25-m2": "require/provide entries added to the gc section of GraphQueries.tla (declared vs resolved dependencies)",
+    "C27-m2": "runs built as the parsers build them (Tests[label] = Files) and the aggregate's per-test entries compared with Coverage.tla's PerTest",
+    "C28-m2": "multi-character names (a, ab, b, ...) and the path set PathsCollide (root directory ab next to a/b) in RemoteTree.tla",
     "C32-m1": "scenario with optional_outs and a binary rule", "C32-m2": "fs.WriteFile crashed with a fresh destination",
 }
 
